@@ -15,6 +15,61 @@ CHECKS = {
             'workbook constants and literals); exhaustive within those bounds',
             'trusted: mc/ref/formula.py (reference grammar and IEEE arithmetic); small-scope hypothesis for longer chains',
             'DESIGN.md section 2 C01'),
+    'C02': ('bounded-exhaustive enumeration of reference spellings x prefixes x title sets x areas x function positions on '
+            'workbooks whose every cell holds a unique number',
+            'every sub-rectangle of a 4x4 window at three offsets and whole-column areas, with all $-spellings, unquoted / '
+            'quoted prefixes over four title sets (sheet orders permuted), in 13 function positions, plus every column '
+            '1..16384 (thorough) and the row set, own-sheet semantics on every sheet and missing titles; values and order are '
+            'compared with the planted numbers; exhaustive within those bounds',
+            'trusted: planted-value oracle; Excel-legal reference spellings only (no reversed corners, no ! in titles)',
+            'DESIGN.md section 2 C02'),
+    'C03': ('bounded-exhaustive enumeration of dependency digraphs (programs), every node as entry point, against '
+            'whole-workbook translation and a reference evaluation of the graph',
+            'all labelled digraphs on up to 3 cells (4 in thorough; 5 with out-degree <= 2 by stride) over two sheets, three '
+            'edge forms, entry cells addressed numerically, A1-style and through a Cell object already used by an Executor; '
+            'closure (every reachable cell defined), value agreement, and parser exception for every cyclic graph / entry',
+            'trusted: graph reference evaluator (weighted sums of distinct primes)', 'DESIGN.md section 2 C03'),
+    'C04': ('explicit-state exploration: all histories of set_cells batches replayed on the real Executor, oracle = '
+            're-translation of the edited workbook; repeated under a range of hash seeds in separate processes',
+            'all sequences of d override batches (d=2 over all 34 batches, d=3 over the 20 core batches; thorough 3/4) with '
+            'every cell queried after every step; batches cover the same cell written twice, formula / failing / blank / '
+            'out-of-range / second-sheet / two-letter-column targets, falsy and type-changing values, both addressings; '
+            'PYTHONHASHSEED 0..7 (0..63)',
+            'trusted: differential oracle uses the same translator on the edited workbook; None and empty text are not override values',
+            'DESIGN.md section 2 C04'),
+    'C05': ('bounded-exhaustive enumeration of token sequences and single-token edits, judged by an independent reference grammar',
+            'all sequences up to length 4 over 14 tokens (5 over 10 tokens; thorough 5/6), joined with and without blanks, through '
+            'the real lexer/parser/translator; accepted texts are compiled and evaluated; every insertion/deletion/duplication '
+            'in a corpus with every supported function; every function x arity; whitespace at every boundary; every subset of '
+            'separators swapped',
+            'trusted: mc/ref/formula.py grammar and the hand-written arity table', 'DESIGN.md section 2 C05'),
+    'C07': ('bounded-exhaustive enumeration of strings x positions with an AST non-interference oracle, a canary and round-trip equality',
+            'all strings up to length 3 (4 thorough) over 14 special characters plus ~70 payloads, in constant cells, literals, '
+            'concatenations, criteria of four functions, SEARCH/IF operands and sheet titles, safety check on and off: generated '
+            'methods must have the AST shape of a benign string of the same lexical class, no payload may run, texts round-trip',
+            'trusted: lexical-class regexes of the harness; Python ast module', 'DESIGN.md section 2 C07'),
+    'C08': ('explicit-state exploration: all histories of query / override operations replayed on the real Executor with state '
+            'invariants after every transition',
+            'all sequences of 3 operations over 31 operations and of 4 over 16 core operations (thorough 4/5): get_cell in four '
+            'spellings, reused Cell objects, get_cells, get_sheet by index/title, four set_cells; values against a fresh executor '
+            'with the same overrides, override map and sheet sizes against the model, grid shape/coordinates/values',
+            'trusted: the fresh-executor oracle (same generated class)', 'DESIGN.md section 2 C08'),
+    'C09': ('explicit-state BFS over Parser facade calls with state de-duplication and replay validation; hash-seed and '
+            'process-history enumeration in separate processes; 2-thread schedule enumeration',
+            'BFS to depth 5 (7 thorough) over 12 facade operations on colliding workbooks, every get/write compared with a fresh '
+            'Parser; every reached state re-derived by replaying its history; text hashes for 8 workbooks x 2 settings under '
+            'PYTHONHASHSEED 0..7 (0..31) and after every other workbook in a cold process',
+            'trusted: Parser state = its instance fields + caller-owned Cell objects (validated by replay)', 'DESIGN.md section 2 C09'),
+    'C18': ('bounded-exhaustive enumeration of sparse layouts x value types read through the real Parser/Executor',
+            'all 512 occupancy patterns of a 3x3 window at two offsets (+ covering subsets at (26,9) and (700,40)), single and '
+            'multi-sheet configurations with empty sheets before/between/after and narrower-after-wider sheets, 22 value types '
+            'rotated through positions; every coordinate of the used range, titles and sizes compared with the planted map',
+            'trusted: openpyxl writer; normalisation by what xlsx loses (integral floats, dates, 16 digits)', 'DESIGN.md section 2 C18'),
+    'C19': ('bounded-exhaustive enumeration of fragment placements and gate-toggle histories',
+            'every placement of one fragment (21 fragments) over 3 sheets x 5-8 columns (incl. Z, AA, AZ) x 3-5 rows, ordered '
+            'pairs of fragments, gate on/off, and all enable/disable/get sequences up to length 5 (6) on one Parser; exception '
+            'type, reported keys and fragments compared with the planted positions',
+            'trusted: hand-written expected fragments per alphabet entry', 'DESIGN.md section 2 C19'),
     'C10': ('bounded-exhaustive enumeration of operand pairs x operators x sources on the real pipeline, judged by an exact '
             'rational reference and algebraic laws',
             'every ordered pair over a 40-value alphabet (numbers differing only in the fraction, negatives, texts, numeric '
